@@ -200,4 +200,39 @@ def returnInconsistency (n : Net K) : Net K :=
 /-- what the writers print for an internal `y` (adjusted, approximate, fixed; `Y`, `Ydiff`) -/
 def outY (n : Net K) (y : K) : K := ySign n.cs n.leftHandedAngles * y
 
+/-! ### the way out: what the adjustment XML writes (lib/gnu_gama/xml/localnetworkxml.cpp)
+
+    adjusted coordinates   `x = p.x()+X(p.index_x())/1000;  y = (p.y()+X(p.index_y())/1000)*y_sign;`
+    orientation shifts     `z = y_sign*(k->orientation())*R2G; if (z < 0) z += 400; if (z > 400) z -= 400;` (approx),
+                           `cor = y_sign*X(i)/10000; z += cor;` and the same two tests (adj)
+    `<cov-mat>`            `m2*netinfo->qxx(ind[i], ind[j])`             — NO `y_sign`
+    ellipse `<alpha>`      `netinfo->std_error_ellipse(ID, major, minor, alpha)` of the internal system — NO `y_sign`
+    (known finding C07-F3: the last two are written in the internally mirrored system) -/
+
+section Output
+variable {K : Type} [Scalar K]
+
+def outAdjX (x dx : K) : K := x + dx / Scalar.ofNat 1000
+
+def outAdjY (ysign y dy : K) : K := (y + dy / Scalar.ofNat 1000) * ysign
+
+/-- `if (z < 0) z += 400; if (z > 400) z -= 400;` -/
+def norm400 (z : K) : K :=
+  let z1 := if z < 0 then z + Scalar.ofNat 400 else z
+  if Scalar.ofNat 400 < z1 then z1 - Scalar.ofNat 400 else z1
+
+/-- `<approx>` of an orientation; `oriGon` = `k->orientation()*R2G` -/
+def outOriApprox (ysign oriGon : K) : K := norm400 (ysign * oriGon)
+
+/-- `<adj>` of an orientation; `dcc` = `X(i)` (in cc) -/
+def outOriAdj (ysign oriGon dcc : K) : K := norm400 (outOriApprox ysign oriGon + ysign * dcc / Scalar.ofNat 10000)
+
+/-- an element of `<cov-mat>`: the cofactor of the INTERNAL system times `m0²`, whatever `y_sign()` is -/
+def outCov (_ysign m0 q : K) : K := (m0 * m0) * q
+
+/-- `<alpha>` of an error ellipse: the bearing in the INTERNAL system, whatever `y_sign()` is -/
+def outAlpha (_ysign alphaInternal : K) : K := alphaInternal
+
+end Output
+
 end Gama.Input
